@@ -6,3 +6,9 @@ CLAIMS["C02"] = (
     "modelled, not verified: the Python glue around run_pelt (check_data, output formatting) is exercised by the correspondence only; built-in float costs are compared under a tolerance; the correspondence is differential testing (3-60 k exact cases per run incl. model-mined pruning-boundary inputs).",
     "3/C02",
 )
+CLAIMS["C03"] = (
+    "Lean 4 proof by loop invariant (point/collective Bellman inequalities against all admissible starts under delayed pruning and length-limit pruning) + top-k lemma for the penalised saving + exact model/code correspondence on integer table savings",
+    "Theorems capa_optimal / capa_prefix / capa_reported_positive (any penalised-saving functions satisfying the pruning inequality), penalise_general_best (best over all non-empty component selections), penalise_{dense,equal,general}_H (the pruning inequality follows from column-wise sub-additivity and beta >= 0) in Skc/Props/C03.lean: the model of run_base_capa + get_anomalies returns an admissible anomaly set of maximal total penalised saving, prefix scores are prefix optima, >= 0 and non-decreasing. Unbounded in n, p.",
+    "hypotheses forced by the proof: savings >= 0, alpha >= 0, betas >= 0 and not in (0,1e-8); modelled not verified: Python glue (check_data, formatting, sorting of the two anomaly lists), built-in float savings (compared under tolerance), scipy chi2 in the intermediate family. The glue theorem composing penalise with runCapa is stated per branch, the composition itself is what the driver executes and the correspondence checks.",
+    "3/C03",
+)
